@@ -22,7 +22,7 @@ Fixpoint fq_resume_g (fuel ffuel : nat) (s : stage) (mk_room : bool) (r : fq)
         | QGOk =>
             let '(r2, fr) := fq_fill ffuel r1 in
             match fr with
-            | FillErr k => (qset_st r2 QFinished, QrErr (FqIo k), gs)
+            | FillErr k => (qset_st (qset_buf r2 []) QFinished, QrErr (FqIo k), gs)
             | FillFuel => (r2, QrFuel, gs)
             | FillOk _ =>
                 match fq_search_from s true r2 with
